@@ -456,7 +456,7 @@ fn run(ctx: &mut Ctx) {
     decimals(ctx, ctx.tier.of(6_000, 150_000));
     strings(ctx, ctx.tier.of(3_000, 60_000));
     words(ctx);
-    layout(ctx, ctx.tier.of(3_000, 60_000));
+    layout(ctx, ctx.tier.of(6_000, 60_000));
 }
 
 fn finish(m: &Merged, tier: Tier) -> Finish {
